@@ -117,7 +117,7 @@ template <class OP, typename T, typename T3, int SH> static void R3(Engine& E, c
 DEF_FN(radians, BITS) DEF_FN(degrees, BITS) DEF_FN(sin, BITS) DEF_FN(cos, BITS) DEF_FN(tan, BITS) DEF_FN(asin, BITS) DEF_FN(acos, BITS) DEF_FN(atan, BITS) DEF_FN(sinh, BITS) DEF_FN(cosh, BITS) DEF_FN(tanh, BITS)
 DEF_FN(asinh, BITS) DEF_FN(acosh, BITS) DEF_FN(atanh, BITS) DEF_FN(exp, BITS) DEF_FN(log, BITS) DEF_FN(exp2, BITS) DEF_FN(log2, BITS) DEF_FN(sqrt, BITS)
 DEF_FN_PRE(inversesqrt, LOWPREL, template <class A> static bool pre(A x) { return x >= (A)1.1754944e-38f && x <= (A)1e37f; })   // lowp bit-trick is only defined on positive normal x with a normal result
-DEF_FN(abs, BITS) DEF_FN(sign, BITS) DEF_FN(floor, BITS) DEF_FN(trunc, BITS) DEF_FN(round, BITS) DEF_FN(roundEven, BITS) DEF_FN(ceil, BITS) DEF_FN(fract, BITS) DEF_FN(isnan, BITS) DEF_FN(isinf, BITS)
+DEF_FN_PRE(abs, BITS, template <class A> static bool pre(A x) { return !(std::is_integral<A>::value && std::is_signed<A>::value && x == std::numeric_limits<A>::min()); }) /* |most negative| is not representable */ DEF_FN(sign, BITS) DEF_FN(floor, BITS) DEF_FN(trunc, BITS) DEF_FN(round, BITS) DEF_FN(roundEven, BITS) DEF_FN(ceil, BITS) DEF_FN(fract, BITS) DEF_FN(isnan, BITS) DEF_FN(isinf, BITS)
 DEF_FN(floatBitsToInt, BITS) DEF_FN(floatBitsToUint, BITS) DEF_FN(intBitsToFloat, BITS) DEF_FN(uintBitsToFloat, BITS)
 DEF_FN(sec, BITS) DEF_FN(csc, BITS) DEF_FN(cot, BITS) DEF_FN(asec, BITS) DEF_FN(acsc, BITS) DEF_FN(acot, BITS) DEF_FN(sech, BITS) DEF_FN(csch, BITS) DEF_FN(coth, BITS) DEF_FN(asech, BITS) DEF_FN(acsch, BITS) DEF_FN(acoth, BITS)
 DEF_FN(repeat, BITS) DEF_FN(mirrorClamp, BITS) DEF_FN(mirrorRepeat, ULPS)
